@@ -34,7 +34,7 @@ def enc_iter(data, rk):
     for i, lv in enumerate(h):
         d = data[lv]
         leaf = i == len(h) - 1
-        tree.append([[rk[n], [int(r) if leaf else rk[c] for c in list(d[n])]] for n in d])
+        tree.append([[rk[n], [int(c) if leaf else rk[c] for c in list(d[n])]] for n in d])
         flags.append([1 if isinstance(d[n], set) else 0 for n in d])
     return tree, flags
 
@@ -228,7 +228,7 @@ FIXED = {'hierarchy': ['a', 'b'], 'a': {'0': {'11', '10', '12'}}, 'b': {'11': [0
 def reread_part(ctx):
     from harness.props import c10 as K
     rng = ctx.rng
-    n_shape_leaves, n_random, n_tables = ctx.n(4, 5), ctx.n(60, 1500), ctx.n(60, 1500)
+    n_shape_leaves, n_random, n_tables = ctx.n(4, 5), ctx.n(150, 3000), ctx.n(150, 3000)
     if isinstance(ctx.rule, str):
         ctx.rule += ('; re-read part: every tree shape with <=4 levels and <=%d leaves in a shuffled variant and %d random '
                      'trees, each as dict data (lists), with a random subset of its collections as sets/tuples, '
